@@ -113,6 +113,10 @@ func c18Exec(x *Ctx) {
 	}
 	os.MkdirAll(filepath.Join(u.Root, "sub", "deep"), 0o755)
 	os.WriteFile(filepath.Join(u.Root, "sub", "file"), []byte("inside"), 0o644)
+	// symbolic links that stay inside the tree but point towards the root: '..' after them is still inside
+	os.Symlink(".", filepath.Join(u.Root, "up"))
+	os.Symlink("..", filepath.Join(u.Root, "sub", "back"))
+	os.Symlink("../..", filepath.Join(u.Root, "sub", "deep", "top"))
 	// canaries next to and above the root
 	canary := filepath.Join(u.Outer, "canary.txt")
 	os.WriteFile(canary, []byte(canaryText), 0o644)
@@ -136,6 +140,14 @@ func c18Exec(x *Ctx) {
 		}
 		return nil
 	})
+	if c.Seed%5 == 0 {
+		// the server is told to export "." (its working directory is the tree)
+		if wd, err := os.Getwd(); err == nil && os.Chdir(u.Root) == nil {
+			u.Ufs.Root = "."
+			defer os.Chdir(wd)
+			x.Probe("relative-export-root")
+		}
+	}
 	outsideBefore := c18Outside(u)
 	var dirs, real []string
 	for _, e := range tree {
@@ -204,6 +216,12 @@ func c18Exec(x *Ctx) {
 			var names []string
 			for n := r.Range(0, 4); n > 0; n-- {
 				names = append(names, evilName(r, real, u.Outer))
+			}
+			if cur == 0 && r.Pct(20) {
+				// through a link that points towards the root, then up, then at a canary
+				names = [][]string{{"up", "..", "canary.txt"}, {"sub", "back", "..", "canary.txt"}, {"sub", "deep", "top", "..", "canarydir", "inside.txt"},
+					{"up", "up", "..", "..", "canary.txt"}, {"sub", "back", "up", "..", ".."}}[r.Intn(5)]
+				x.Probe("dotdot-after-a-link-towards-the-root")
 			}
 			what := fmt.Sprintf("attach %q then walk %q", aname, names)
 			wr := call(&Msg{Type: Twalk, Fid: cur, Newfid: 2, Wname: names})
